@@ -20,9 +20,13 @@ func (consumer *Consumer) Loop() {
 		if consumer.lifecycle.IsKilled() {
 			return
 		}
+		// The close step must be read before the queues are probed: it is announced after the
+		// last producer has enqueued its last path, so queues found empty afterwards stay empty.
+		// (Probing first loses a path that is enqueued between the probe and the announcement.)
+		isClosed := consumer.lifecycle.Step() == StepClose
 		if len(consumer.loopData.chans.dirChan) == 0 &&
 			len(consumer.loopData.chans.fileChan) == 0 {
-			if consumer.lifecycle.Step() == StepClose {
+			if isClosed {
 				return
 			}
 			runtime.Gosched()
